@@ -240,5 +240,5 @@ def cases(tier):
 
 ASSUMPTIONS = ["AXI4-Lite-legal partners as stated per case (valid/payload stable; slaves answer only received requests; B only after AW and W)",
                "decoder routing is proved under two scenario restrictions (no request to another slave while responses are outstanding; W not before its AW); the unrestricted cases are listed known findings",
-               "AXICrossbar / AXI4 (full) interconnect components (tier 2) are not covered; crossbar = decoder rows + arbiter columns (paper composition)",
+               "the AXI4 (full) classes are under contract in C08_axi_full_ic.py; AXILiteCrossbar = decoder rows + arbiter columns, each proved separately (paper composition)",
                "'eventually served' is decided as bounded response with the other masters idle"]
